@@ -256,8 +256,12 @@ def _same_violation(mod, scenario, tape, clause):
         r = mod.execute(scenario, tape=tape) if tape is not None else mod.execute(scenario)
     except HarnessError:
         return None
+    findings = load_known_findings()
+    prop = getattr(mod, "PROPERTY", "")
     for v in r.violations:
-        if v["clause"] == clause:
+        # the shrunk case must still be an *unlisted* violation: shrinking must not drift
+        # into the feature space of an open known finding
+        if v["clause"] == clause and not match_known(findings, prop, v):
             return r
     return None
 
@@ -332,7 +336,8 @@ def report_violation(mod, prop, rec, v, count, out):
         sc2, tp2 = minimise(mod, scenario, tape, clause)
         r = _same_violation(mod, sc2, tp2, clause)
         if r is not None:
-            vv = [x for x in r.violations if x["clause"] == clause][0]
+            kf = load_known_findings()
+            vv = [x for x in r.violations if x["clause"] == clause and not match_known(kf, prop, x)][0]
             mini = dict(full)
             mini.update({"scenario": sc2, "schedule_tape_rle": rle(r.tape), "expect": {"clause": clause, "key": vv["key"]}, "detail": vv["detail"], "minimised": True})
             with open(base + ".json", "w") as f:
